@@ -119,6 +119,27 @@ func coqBool(b bool) string {
 }
 func coqHex(b []byte) string { return fmt.Sprintf("\"%x\"", b) }
 
+// coqPk writes a byte string as (pk <len> [7-byte words as primitive ints]).
+func coqPk(b []byte) string {
+	var sb strings.Builder
+	fmt.Fprintf(&sb, "(pk %d [", len(b))
+	for i := 0; i < len(b); i += 7 {
+		var w uint64
+		for j := 0; j < 7; j++ {
+			w <<= 8
+			if i+j < len(b) {
+				w |= uint64(b[i+j])
+			}
+		}
+		if i > 0 {
+			sb.WriteString(";")
+		}
+		fmt.Fprintf(&sb, "0x%x", w)
+	}
+	sb.WriteString("])")
+	return sb.String()
+}
+
 // coqChunkedList emits `Definition <name> : list <typ> := chunk0 ++ chunk1 ++ ...` with the
 // items spread over small definitions (Coq's list notation parses super-linearly).
 func coqChunkedList(name, typ string, items []string) string {
